@@ -11,7 +11,10 @@
 // through the full middleware stack with the production cloner and caches,
 // concurrently and as a single-goroutine schedule in which responses stay in
 // use while further requests are served, and compares every response with the
-// response the same request gets when it is processed alone.
+// response the same request gets when it is processed alone.  Campaign 3
+// (hot.go) has many clients ask for the same few questions at the same time on
+// all processors: shared long-lived objects (cache items, cached filtering
+// results of the production filters, templates) must only be read.
 package main
 
 import (
@@ -877,6 +880,11 @@ func clonerCampaign(o *hlib.Opts, r *hlib.Result, m *hlib.Model) {
 func min2(a, b int) int { return min(a, b) }
 
 func main() {
+	if arg := os.Getenv(hotChildEnv); arg != "" {
+		hotChild(arg)
+
+		return
+	}
 	o := hlib.ParseFlags()
 	r := hlib.NewResult("C07", o)
 	r.Rule = "cloner: random and directed histories of create (direct or through Pack/Unpack; slices with spare capacity, " +
@@ -896,17 +904,25 @@ func main() {
 		"returned it, its client subnet with the one the request sent, the query-log lines with those of the requests alone, and at the " +
 		"filter boundary every field of filter.Request / filter.Response / agd.RequestInfo with the request's own identity (and no two " +
 		"requests in flight may use one RequestInfo). overlap: for 8 kinds of history x 8 boundaries x 14 ordered pairs of requests, " +
-		"request A is held at the boundary while request B is served completely, on one processor, and both are compared with alone"
+		"request A is held at the boundary while request B is served completely, on one processor, and both are compared with alone. " +
+		"hot: 4-16 clients ask for the same 1-3 popular questions thousands of times on all processors (each round in a process of " +
+		"its own; ECS cache / simple cache / none, cold or warmed up; scripted filters, or the production filter storage with its " +
+		"result caches), every request with its own ID, letter case of the name, RD/CD/AD bits, EDNS size, cookie, client subnet; " +
+		"every response against the request alone and against what it must echo of its request; all stack campaigns vary letter " +
+		"case and RD/CD/AD"
 	m := hlib.StartModel(o.Model, "C07")
 	defer m.Close()
-	// C07_ONLY=cloner|stack restricts a development run to one campaign.
+	// C07_ONLY=cloner|stack|hot restricts a development run to one campaign.
 	only := os.Getenv("C07_ONLY")
-	if only != "stack" {
+	if only != "stack" && only != "hot" {
 		clonerCampaign(o, r, m)
 	}
-	if only != "cloner" {
+	if only != "cloner" && only != "hot" {
 		overlapCampaign(o, r)
 		stackCampaign(o, r)
+	}
+	if only != "cloner" && only != "stack" {
+		hotCampaign(o, r)
 	}
 	r.Finish()
 }
